@@ -18,6 +18,21 @@ PROPERTY = "C03"
 LEVEL = "model_checking"
 
 
+def first_listed_inverse_covers_everything(d: Dict[str, Any]) -> bool:
+    """SCALE-RAT-FUNC, 8-bit internal type, one forward scale x -> x, several explicit inverse scales of which the FIRST is
+    p -> p with the limits of the forward scale: the scales are consulted in the order listed (as for every other category),
+    so the later ones never decide and the description is its own inverse."""
+    cm = d["cm"]
+    if cm.get("cat") != "SCALE-RAT-FUNC" or d["dct"].get("bits") != 8 or d["dct"].get("k", "STD") != "STD":
+        return False
+    i2p, p2i = cm.get("i2p") or [], cm.get("p2i") or []
+    if len(i2p) != 1 or len(p2i) < 2:
+        return False
+    ident = lambda s: list(s["num"]) == [0, 1] and list(s.get("den") or [1]) == [1]  # noqa: E731
+    return ident(i2p[0]) and ident(p2i[0]) and i2p[0].get("lo") == p2i[0].get("lo") and i2p[0].get("hi") == p2i[0].get("hi") \
+        and i2p[0].get("lo") is not None and i2p[0].get("hi") is not None
+
+
 def check_program(L: harness.Loaded, prog: Dict[str, Any], part: Part) -> None:
     msg = L.msg[prog["pid"]]
     tag = tagkey(prog)
@@ -28,6 +43,25 @@ def check_program(L: harness.Loaded, prog: Dict[str, Any], part: Part) -> None:
         from odxmodel import refcompu as RC
         d = prog["dops"][0]
         if not RC.is_injective(d["cm"], d["dct"]["base"], d["phys"]):
+            if first_listed_inverse_covers_everything(d):
+                # every byte is a PDU here; the reference is not asked (it leaves physical values that several inverse
+                # scales claim with different results undecided), the round trip through the library alone decides
+                for pdu in prog.get("pdus") or [bytes([x]) for x in range(256)]:
+                    part.count("evaluations")
+                    case = {"program": prog_case(prog), "values": None, "pdu": pdu.hex()}
+                    dec, dexc = harness.odx_decode(msg, pdu)
+                    if dexc is not None or not isinstance(dec, dict):
+                        part.count("decoder_refuses")
+                        continue
+                    part.count("decoded")
+                    part.add("nontrivial", digest((prog["tags"], pdu.hex())))
+                    pdu2, exc, _ = harness.odx_encode(msg, dec, prog.get("request"))
+                    if exc is not None:
+                        part.violation(f"C03/{tag}/decoded-values-refused/{type(exc).__name__}", case,
+                                       f"{pdu.hex()} -> {show(dec)} -> {type(exc).__name__}: {str(exc)[:150]}")
+                    elif pdu2 != pdu:
+                        part.violation(f"C03/{tag}/re-encoding-differs", case, f"{pdu.hex()} -> {show(dec)} -> {pdu2.hex()}")
+                return
             part.count("non_injective_compu_methods_skipped")
             return
     def int_keyed_mux(v: Any) -> bool:
